@@ -462,7 +462,7 @@ func selfTest(ctx *core.Ctx) error {
 	// (i) a correct run is accepted; corrupting one read, one error flag or
 	// dropping an op makes TLC reject exactly those
 	prog := []Op{{Op: "Put", N: 1, G: 0, V: "a"}, {Op: "OpenStream", N: 2, G: 0, V: "b", Lg: "none"}, {Op: "StreamWrite", K: 2},
-		{Op: "Put", N: 3, G: 1, V: "a"}, {Op: "CloseStream"}, {Op: "WriteCompressed", Ns: []int{4, 5}, Vs: []string{"a", "b"}}, {Op: "Close"}}
+		{Op: "Put", N: 6, G: 1, V: "a"}, {Op: "CloseStream"}, {Op: "WriteCompressed", Ns: []int{8, 9}, Vs: []string{"a", "b"}}, {Op: "Close"}}
 	for i := range prog {
 		if prog[i].Ns == nil {
 			prog[i].Ns, prog[i].Vs = []int{}, []string{}
@@ -477,6 +477,9 @@ func selfTest(ctx *core.Ctx) error {
 		return r
 	}
 	good := mk()
+	if !good.Closed || len(good.Reads) == 0 {
+		return core.Infra("self-test: the self-test program does not produce a file")
+	}
 	b1 := mk()
 	b1.Reads[0].V = "b"
 	b2 := mk()
